@@ -252,14 +252,13 @@ func fnScan(ctx *cmdContext, args map[string]any) (output respValue, err error) 
 func fnTouch(ctx *cmdContext, args map[string]any) (output respValue, err error) {
 	keyNames := args["key"].([]any)
 
-	count := 0
+	keyStrs := make([]string, 0, len(keyNames))
 	for _, k := range keyNames {
-		if ctx.dsc.touch(k.(string)) {
-			count++
-		}
+		keyStrs = append(keyStrs, k.(string))
 	}
 
-	output.data = respInt(count)
+	// all keys are looked at under one lock (the lookup itself refreshes the access time)
+	output = ctx.dsc.exists(keyStrs)
 	return
 }
 
